@@ -409,6 +409,9 @@ func (b *Batch) runOn(ch transport.Channel, names []string, obs *BatchObs) {
 		// the connection options named explicitly (the values the library defaults to): nothing else may change
 		copts = append(copts, client.WithOutboundCodec(tcar.NewCAROutboundCodec()), client.WithHasher(sha256.New))
 	}
+	if b.ID%4 == 1 {
+		copts = append(copts, client.WithHasher(nil)) // no hasher factory: the default (SHA-256) stays in force
+	}
 	conn, err := client.NewConnection(b.W.Ctx.Authority.DID, ch, copts...)
 	if err != nil {
 		obs.ExecErr = "connection: " + err.Error()
